@@ -91,6 +91,9 @@ func (u *Unit) callEffect(fr *Frame, c *ssa.CallCommon) effect {
 	if ct := u.W.Contracts[name]; ct == nil && isPureExternal(name) {
 		return effNone
 	}
+	if ct := u.W.Contracts[name]; ct == nil && u.isProtoGetter(c) {
+		return effNone
+	}
 	if ct := u.W.Contracts[name]; ct != nil && ct.HasFrame {
 		if len(ct.Frame) == 1 && ct.Frame[0] == "nothing" {
 			return effNone
@@ -318,6 +321,9 @@ func (u *Unit) execCall(fr *Frame, site ssa.Instruction, c *ssa.CallCommon, st *
 	}
 	if isPureExternal(name) {
 		return u.freshResult(st, resT, name)
+	}
+	if v, ok := u.protoGetter(st, c, args, resT); ok {
+		return v
 	}
 	// unknown callee: arbitrary effects on the heap, arbitrary results
 	u.note("call to " + name + " without contract: arbitrary heap effects and results")
